@@ -33,6 +33,7 @@ import (
 	"net/http"
 	"os"
 	"path/filepath"
+	"slices"
 	"strings"
 	"testing"
 
@@ -210,6 +211,17 @@ func (srv *Server) handler(w http.ResponseWriter, r *http.Request) {
 		if best != "" {
 			vers = best
 		}
+	}
+
+	// Serve only the module versions that readModList found. The archive
+	// name is derived from the path and version by replacing "/" with "_",
+	// which is not injective (both may contain "_"), so an archive could
+	// otherwise be served as a module version that is not stored, and
+	// its cached zip would carry that other path@version prefix.
+	if !slices.Contains(srv.modList, module.Version{Path: path, Version: vers}) {
+		srv.logf("go proxy: no module %s %s\n", path, vers)
+		http.NotFound(w, r)
+		return
 	}
 
 	a := srv.readArchive(path, vers)
